@@ -373,15 +373,19 @@ fn main() {
         flag: Option<&'static str>,
         deps: Vec<(&'static str, &'static str)>,
         omit_name_from_dir: bool,
+        /// where the WAC source lives (the default `deps` directory is relative to the working
+        /// directory, not to the source file)
+        source: &'static str,
     }
     let variants = vec![
-        DepsVariant { label: "default-dir", dir: "deps", flag: None, deps: vec![], omit_name_from_dir: false },
-        DepsVariant { label: "deps-dir-flag", dir: "alt", flag: Some("alt"), deps: vec![], omit_name_from_dir: false },
-        DepsVariant { label: "dep-override", dir: "deps", flag: None, deps: vec![("t:name", "elsewhere/n.wasm")], omit_name_from_dir: true },
-        DepsVariant { label: "dep-override-beats-dir", dir: "deps", flag: None, deps: vec![("t:name", "elsewhere/n2.wasm")], omit_name_from_dir: false },
-        DepsVariant { label: "dep-twice-last-wins", dir: "deps", flag: None, deps: vec![("t:name", "elsewhere/n.wasm"), ("t:name", "elsewhere/n2.wasm")], omit_name_from_dir: true },
-        DepsVariant { label: "wrong-deps-dir", dir: "deps", flag: Some("nowhere"), deps: vec![], omit_name_from_dir: false },
-        DepsVariant { label: "dangling-dep", dir: "deps", flag: None, deps: vec![("t:name", "elsewhere/missing.wasm")], omit_name_from_dir: false },
+        DepsVariant { label: "default-dir", dir: "deps", flag: None, deps: vec![], omit_name_from_dir: false, source: "input.wac" },
+        DepsVariant { label: "deps-dir-flag", dir: "alt", flag: Some("alt"), deps: vec![], omit_name_from_dir: false, source: "input.wac" },
+        DepsVariant { label: "dep-override", dir: "deps", flag: None, deps: vec![("t:name", "elsewhere/n.wasm")], omit_name_from_dir: true, source: "input.wac" },
+        DepsVariant { label: "dep-override-beats-dir", dir: "deps", flag: None, deps: vec![("t:name", "elsewhere/n2.wasm")], omit_name_from_dir: false, source: "input.wac" },
+        DepsVariant { label: "dep-twice-last-wins", dir: "deps", flag: None, deps: vec![("t:name", "elsewhere/n.wasm"), ("t:name", "elsewhere/n2.wasm")], omit_name_from_dir: true, source: "input.wac" },
+        DepsVariant { label: "wrong-deps-dir", dir: "deps", flag: Some("nowhere"), deps: vec![], omit_name_from_dir: false, source: "input.wac" },
+        DepsVariant { label: "source-in-subdir", dir: "deps", flag: None, deps: vec![], omit_name_from_dir: false, source: "sub/input.wac" },
+        DepsVariant { label: "dangling-dep", dir: "deps", flag: None, deps: vec![("t:name", "elsewhere/missing.wasm")], omit_name_from_dir: false, source: "input.wac" },
     ];
     let all_compositions = compositions(&mut r, if thorough { 40 } else { 1 });
     let mut combo_no = 0usize;
@@ -420,8 +424,9 @@ fn main() {
                 }
                 fs::write(cwd.join("elsewhere/n.wasm"), &fixtures[0].1).unwrap();
                 fs::write(cwd.join("elsewhere/n2.wasm"), &name2).unwrap();
-                fs::write(cwd.join("input.wac"), &source).unwrap();
-                let path = if clabel == "ok" && mask == 15 && v.label == "default-dir" { "missing.wac" } else { "input.wac" };
+                fs::create_dir_all(cwd.join("sub")).unwrap();
+                fs::write(cwd.join(v.source), &source).unwrap();
+                let path = if clabel == "ok" && mask == 15 && v.label == "default-dir" { "missing.wac" } else { v.source };
 
                 let mut argv: Vec<String> = vec!["compose".into()];
                 if let Some(d) = v.flag {
@@ -694,6 +699,100 @@ fn main() {
         out.count(&format!("parse:{label}"));
         out.case(true, "parse", &f);
         fs::remove_dir_all(&cwd).ok();
+    }
+
+    // ---------------------------------------------------------------- stdout is a terminal
+    // (run under `script`, which gives the child a pty; stdout and stderr arrive merged)
+    if shard == 0 && Path::new("/usr/bin/script").exists() && wanted("tty") {
+        for mask in 0..4u32 {
+            let (wat, with_output) = (mask & 1 != 0, mask & 2 != 0);
+            ctx.n += 1;
+            let cwd = ctx.scratch.join(format!("case{}", ctx.n));
+            fs::create_dir_all(cwd.join("deps/t")).unwrap();
+            fs::create_dir_all(cwd.join("out")).unwrap();
+            for (n, bytes) in &fixtures {
+                fs::write(cwd.join("deps/t").join(format!("{n}.wasm")), bytes).unwrap();
+            }
+            let source = &fixed_compositions()[0].1;
+            fs::write(cwd.join("input.wac"), source).unwrap();
+            let mut cmdline = format!("{} compose", ctx.wac.display());
+            if wat {
+                cmdline.push_str(" -t");
+            }
+            if with_output {
+                cmdline.push_str(" -o out/result.bin");
+            }
+            cmdline.push_str(" input.wac");
+            let o = Command::new("/usr/bin/script")
+                .args(["-q", "-e", "-c", &cmdline, "/dev/null"])
+                .current_dir(&cwd)
+                .env("HOME", &cwd)
+                .env("NO_COLOR", "1")
+                .env("TOKIO_WORKER_THREADS", "2")
+                .env_remove("RUST_LOG")
+                .env_remove("RUST_BACKTRACE")
+                .stdin(std::process::Stdio::null())
+                .output()
+                .expect("spawn script");
+            let merged: Vec<u8> = o.stdout.iter().copied().filter(|b| *b != b'\r').collect();
+            let lib = lib_compose(&cwd, "input.wac", "deps", &[], true, true);
+            let text = lib.as_ref().ok().and_then(|b| wasmprinter::print_bytes(b).ok()).map(|t| format!("{t}\n").into_bytes());
+            let file = fs::read(cwd.join("out/result.bin")).ok();
+            let f: Vec<String> = vec![
+                "tty".into(),
+                b(wat),
+                esc(if with_output { "out/result.bin" } else { "" }),
+                lib_field(&mut ctx.intern, &lib),
+                o.status.code().map(|c| c.to_string()).unwrap_or_else(|| "signal".into()),
+                b(text.as_deref() == Some(&merged[..])),
+                b(merged.is_empty()),
+                b(String::from_utf8_lossy(&merged).contains("error")),
+                match file {
+                    Some(bytes) => format!("F{}", ctx.intern.tok(&bytes)),
+                    None => "-".into(),
+                },
+            ];
+            out.count("tty:compose");
+            out.case(true, "tty", &f);
+            fs::remove_dir_all(&cwd).ok();
+        }
+        // the same guard in `wac plug`
+        for wat in [false, true] {
+            ctx.n += 1;
+            let cwd = ctx.scratch.join(format!("case{}", ctx.n));
+            fs::create_dir_all(&cwd).unwrap();
+            fs::write(cwd.join("greeter.wasm"), &fixtures[1].1).unwrap();
+            fs::write(cwd.join("name.wasm"), &fixtures[0].1).unwrap();
+            let cmdline = format!("{} plug --plug name.wasm{} greeter.wasm", ctx.wac.display(), if wat { " -t" } else { "" });
+            let o = Command::new("/usr/bin/script")
+                .args(["-q", "-e", "-c", &cmdline, "/dev/null"])
+                .current_dir(&cwd)
+                .env("HOME", &cwd)
+                .env("NO_COLOR", "1")
+                .env("TOKIO_WORKER_THREADS", "2")
+                .env_remove("RUST_LOG")
+                .env_remove("RUST_BACKTRACE")
+                .stdin(std::process::Stdio::null())
+                .output()
+                .expect("spawn script");
+            let merged: Vec<u8> = o.stdout.iter().copied().filter(|b| *b != b'\r').collect();
+            let lib = lib_plug(&cwd, "greeter.wasm", &[("plug:name".to_string(), "name.wasm".to_string())]);
+            let text = lib.as_ref().ok().and_then(|b| wasmprinter::print_bytes(b).ok()).map(|t| format!("{t}\n").into_bytes());
+            let f: Vec<String> = vec![
+                "tty-plug".into(),
+                b(wat),
+                "\\e;".into(),
+                lib_field(&mut ctx.intern, &lib),
+                o.status.code().map(|c| c.to_string()).unwrap_or_else(|| "signal".into()),
+                b(text.as_deref() == Some(&merged[..])),
+                b(merged.is_empty()),
+                b(String::from_utf8_lossy(&merged).contains("error")),
+                "-".into(),
+            ];
+            out.count("tty:plug");
+            out.case(true, "tty", &f);
+            fs::remove_dir_all(&cwd).ok();
+        }
     }
 
     // usage errors are clap's: observed only
